@@ -378,6 +378,8 @@ def main(argv=None):
 
 def replay(mod, path):
     d = json.load(open(path if os.path.isabs(path) else os.path.join(VERIF, path)))
+    if isinstance(d, list):  # a corpus file: list of {"case": .., "note": ..}
+        d = d[0] if d else {}
     case = d.get("case") or (d.get("first_differing_case") or {}).get("case")
     if case is None:
         print("replay file names no concrete case:", json.dumps(d.get("no_longer_checks")))
